@@ -98,6 +98,7 @@ type iJob[T any] interface {
 	Job[T]
 	StatusProvider
 	changeStatus(s status)
+	claim() bool
 	setAckId(id string)
 	setInternalQueue(q IBaseQueue)
 	ack() error
@@ -230,25 +231,54 @@ func (j *job[T]) isCloseable() error {
 	return nil
 }
 
+// claim moves a dequeued job to processing unless it has been closed in the meantime.
+// Together with tryClose it makes cancelling and dispatching a job mutually exclusive.
+func (j *job[T]) claim() bool {
+	for {
+		s := j.status.Load()
+		if s == closed {
+			return false
+		}
+
+		if j.status.CompareAndSwap(s, processing) {
+			return true
+		}
+	}
+}
+
+// tryClose moves the job to closed. For one job exactly one caller succeeds;
+// every other caller gets the error isCloseable reports.
+func (j *job[T]) tryClose() error {
+	for {
+		s := j.status.Load()
+
+		switch s {
+		case processing:
+			return ErrJobProcessing
+		case closed:
+			return ErrJobAlreadyClosed
+		}
+
+		if j.status.CompareAndSwap(s, closed) {
+			return nil
+		}
+	}
+}
+
 // close closes the job and its associated channels.
 // the job regardless of its current state, except when locked.
 func (j *job[T]) Close() error {
-	if err := j.isCloseable(); err != nil {
+	if err := j.tryClose(); err != nil {
 		return err
 	}
 
-	if err := j.ack(); err != nil {
-		return err
-	}
+	defer j.wg.Done()
 
-	j.status.Store(closed)
-	j.wg.Done()
-
-	return nil
+	return j.ack()
 }
 
 func (j *job[T]) ack() error {
-	if j.ackId == "" || j.IsClosed() {
+	if j.ackId == "" {
 		return nil
 	}
 
